@@ -1,3 +1,4 @@
+import re
 from lib.runner import Ob
 from obligations.common import *
 
@@ -15,18 +16,22 @@ PREFIXES = {
     'sostmixed': 'NOTEON1,SOST_ON,NOTEON2,', 'both': 'NOTEON1,SOST_ON,PED_ON,NOTEOFF1,', 'porta1': 'PORTA_TIME,PORTA_ON,NOTEON1,',
     'glide': 'PORTA_TIME,PORTA_ON,NOTEON1,NOTEON2,', 'other': 'O_PED_ON,O_NOTEON,NOTEON1,',
 }
-# operation groups of the symbolic slot X (indices into enum Op of the harness)
-GROUPS = {'keys': (0, 4), 'pedals': (5, 8), 'keyped': (0, 8), 'offtick': (9, 13), 'data': (14, 19), 'otherch': (20, 24)}
-# (channel, prefix, group, with release tail, tiers).  Every registered obligation has been run on the unchanged tree; the percussion
-# channel 9 variants and the remaining prefix x group combinations are listed in UNREGISTERED (CBMC returns status ERROR for 20 properties
-# of the channel-9 variants and ch0.down1.* under the 14 GiB address-space limit: the SAT back end runs out of memory; with the 28 GiB
-# limit that weight-4 obligations now get, ch0.porta1.keys passes and is registered;
-# the others were not run for lack of time) -- see DESIGN.md section 4.
+# operations of the symbolic slot X (enum Op of the harness) and the groups the obligation sets are written in
+OPS = ['NOTEON1', 'NOTEON2', 'NOTEOFF1', 'NOTEOFF2', 'NOTEON1_V0', 'PED_ON', 'PED_OFF', 'SOST_ON', 'SOST_OFF', 'ALLNOTESOFF', 'ALLSOUNDOFF', 'RESETCTL',
+       'RESETSTATE', 'TICK', 'PATCH', 'BEND', 'VOLUME', 'PORTA_TIME', 'PORTA_ON', 'AFTERTOUCH', 'O_NOTEON', 'O_NOTEOFF', 'O_PED_ON', 'O_PED_OFF',
+       'O_ALLNOTESOFF', 'PANIC']
+GROUPS = {'keys': (0, 4), 'pedals': (5, 8), 'keyped': (0, 8), 'offtick': (9, 13), 'data': (14, 19), 'otherch': (20, 24), 'panic': (25, 25)}
+# (channel, prefix, group, with release tail, tiers).  Every group is run as ONE SOLVER RUN PER OPERATION (obligation name = ...<group>.<OP>):
+# a run that carries a whole group (5-9 operations, each on its own call site with its own copy of the rest of the scenario) needed 13-20 min
+# and 10-13 GiB, far more than the sum of its parts (symbolic execution and the SAT instance grow faster than linearly); the same operation on
+# its own takes about a minute and 0.5 GiB, so the runs of a group go in parallel and the quick tier finishes in a few minutes.  The set of
+# (prefix, operation) pairs decided is exactly the one the group obligations decided.  Every registered set has been run on the unchanged
+# tree; the remaining prefix x group combinations are listed in UNREGISTERED (expressible, not run to a verdict) -- see DESIGN.md section 4.
 SETS = {
     'C05': [(0, 'pedheld', 'offtick', False, ('quick', 'thorough')), (0, 'sostdown', 'keyped', False, ('quick', 'thorough')),
             (0, 'both', 'keyped', False, ('quick', 'thorough')), (0, 'pedheld', 'pedals', True, ('quick', 'thorough')),
             (0, 'pedheld', 'keyped', False, ('thorough',)), (0, 'both', 'offtick', False, ('thorough',)),
-            (9, 'down1', 'keys', False, ('thorough',))],      # percussion channel: passes with the 28 GiB limit (941 s)
+            (9, 'down1', 'keys', False, ('thorough',))],      # percussion channel
     'C04': [(0, 'porta1', 'keys', False, ('quick', 'thorough')), (0, 'sostdown', 'keyped', False, ('quick', 'thorough')),
             (0, 'pedheld', 'offtick', False, ('quick', 'thorough')), (0, 'pedheld', 'keyped', False, ('thorough',)),
             (0, 'both', 'offtick', False, ('thorough',))],
@@ -37,39 +42,61 @@ BOUNDS = ('history = concrete prefix + %s; keys 60 and 35 on one MIDI channel (+
           'velocities {1,64,127} and pedal values {63,64} enumerated on call sites, bend/volume/after-touch data symbolic')
 
 
-def one(prop, only, name, chn, pre, lo, hi, tiers, steps=1, tail=False):
-    d = [only, 'CHN=%d' % chn, 'STEPS=%d' % steps, 'XLO=%d' % lo, 'XHI=%d' % hi, 'PRE_LIST=' + pre]
+def one(prop, only, name, chn, pre, lo, hi, tiers, steps=1, tail=False, vfix=None):
+    d = ([] if vfix is None else ['VFIX=%d' % vfix]) + [only, 'CHN=%d' % chn, 'STEPS=%d' % steps, 'XLO=%d' % lo, 'XHI=%d' % hi, 'PRE_LIST=' + pre]
     if tail:
         d.append('WITH_TAIL')
-    what = '%d symbolic operation(s) of enum Op %d..%d%s' % (steps, lo, hi, ' + release of every key and pedal + 30 ms' if tail else '')
+    opn = OPS[lo] if lo == hi else 'one of enum Op %d..%d' % (lo, hi)
+    if vfix is not None:
+        opn += ' (velocity %d)' % vfix
+    what = '%d symbolic operation(s) %s%s' % (steps, opn, ' + release of every key and pedal + 30 ms' if tail else '')
+    single = (lo == hi and steps == 1)
     return Ob(name, prop, 'ir/c04_step.cpp', engine='ir', entry='harness_step', defines=d,
               unwind=20, unwind_funcs=ST_UNWIND, unwindset={'memcmp.0': 40}, repo_tus=PLAYER_TUS, ir_opts=player_ir_opts(),
-              timeout={'quick': 1500, 'thorough': 3400}, tiers=tiers, weight=4,
+              timeout={'quick': 600, 'thorough': 1800} if single else {'quick': 1500, 'thorough': 3400}, tiers=tiers, weight=1 if single else 4,
+              cost=2 if single and OPS[lo] in ('NOTEON1', 'NOTEON2', 'O_NOTEON') else 1,   # a note-on is the expensive operation: started first
+             
               desc='MIDI channel %d: concrete prefix [%s] then %s: model / invariant asserted after every symbolic call' % (chn, pre, what),
               bounds=BOUNDS % what, assumptions=ASSUME, stubs=PLAYER_STUBS)
+
+
+NOTE_ONS = ('NOTEON1', 'NOTEON2', 'O_NOTEON')
+
+
+def expand(prop, only, chn, nm, g, tail, tiers):
+    """One obligation per operation of the group; a note-on operation (three velocity call sites, 4 min / 4 GiB in one run) is run
+    once per velocity 1 / 64 / 127 (-DVFIX: 2 min / 2 GiB each)."""
+    lo, hi = GROUPS[g]
+    obs = []
+    for k in range(lo, hi + 1):
+        base = '%s.%s.ch%d.%s.%s.%s' % (prop, 'tail' if tail else 'step', chn, nm, g, OPS[k])
+        if OPS[k] in NOTE_ONS:
+            obs += [one(prop, only, '%s.v%d' % (base, v), chn, PREFIXES[nm], k, k, tiers, tail=tail, vfix=v) for v in (1, 64, 127)]
+        else:
+            obs.append(one(prop, only, base, chn, PREFIXES[nm], k, k, tiers, tail=tail))
+    return obs
 
 
 def mk(prop, only):
     obs = []
     for chn, nm, g, tail, tiers in SETS[prop]:
-        lo, hi = GROUPS[g]
-        obs.append(one(prop, only, '%s.%s.ch%d.%s.%s' % (prop, 'tail' if tail else 'step', chn, nm, g), chn, PREFIXES[nm], lo, hi, tiers, tail=tail))
+        obs += expand(prop, only, chn, nm, g, tail, tiers)
     return obs
 
 
 def unregistered(prop, only):
     """Everything the harness can express beyond the registered sets (vf.py does not run these)."""
     obs = []
-    reg = set((c, n, g, t) for c, n, g, t, _ in SETS[prop])
+    reg = set(o.name for o in mk(prop, only))
     for chn in (0, 9):
         for nm in sorted(PREFIXES):
-            for g in ('keys', 'pedals', 'offtick', 'data', 'otherch'):
+            for g in ('keys', 'pedals', 'offtick', 'data', 'otherch', 'panic'):
                 for tail in (False, True):
-                    if (chn, nm, g, tail) not in reg:
-                        lo, hi = GROUPS[g]
-                        obs.append(one(prop, only, '%s.%s.ch%d.%s.%s' % (prop, 'tail' if tail else 'step', chn, nm, g), chn, PREFIXES[nm], lo, hi, ('manual',), tail=tail))
+                    for o in expand(prop, only, chn, nm, g, tail, ('manual',)):
+                        # the same (prefix, operation) pair under another group name is the same obligation
+                        if not any(re.sub(r'\.(keys|pedals|keyped)\.', '.G.', o.name) == re.sub(r'\.(keys|pedals|keyped)\.', '.G.', r) for r in reg):
+                            obs.append(o)
     obs.append(one(prop, only, '%s.k2.ch0.down1' % prop, 0, PREFIXES['down1'], 0, 13, ('manual',), steps=2))
-    obs.append(one(prop, only, '%s.step.ch0.pedheld.panic' % prop, 0, PREFIXES['pedheld'], 25, 25, ('manual',)))
     return obs
 
 
